@@ -441,7 +441,7 @@ namespace
             };
         };
         frame f(
-            runtime.default_value_scope(),
+            runtime.current_value_scope(),
             left.data<d_code, sqf::runtime::instruction_set>(),
             {},
             std::make_shared<behavior_except>(right.data<d_code, sqf::runtime::instruction_set>()));
@@ -609,7 +609,7 @@ namespace
     }
     value nobubble___any_code(runtime& runtime, value::cref left, value::cref right)
     {
-        frame f = { runtime.default_value_scope(), right.data<d_code, instruction_set>() };
+        frame f = { runtime.current_value_scope(), right.data<d_code, instruction_set>() };
         f["_this"] = left;
         f.bubble_variable(false);
         runtime.context_active().push_frame(f);
@@ -617,7 +617,7 @@ namespace
     }
     value nobubble___code(runtime& runtime, value::cref right)
     {
-        frame f = { runtime.default_value_scope(), right.data<d_code, instruction_set>() };
+        frame f = { runtime.current_value_scope(), right.data<d_code, instruction_set>() };
         f["_this"] = {};
         f.bubble_variable(false);
         runtime.context_active().push_frame(f);
@@ -676,7 +676,7 @@ namespace
                 }
             };
         };
-        frame f = { runtime.default_value_scope(), {}, std::make_shared<behavior_measureoverhead>(right.data<d_code, sqf::runtime::instruction_set>(), 10000) };
+        frame f = { runtime.current_value_scope(), {}, std::make_shared<behavior_measureoverhead>(right.data<d_code, sqf::runtime::instruction_set>(), 10000) };
         f["_this"] = {};
         f.bubble_variable(false);
         runtime.context_active().push_frame(f);
